@@ -15,6 +15,29 @@ Proof.
   induction l as [|x r IH]; intros H; cbn; [reflexivity|]. rewrite (H x (or_introl eq_refl)). apply IH. intros e He; apply H; right; exact He.
 Qed.
 
+(* ---------- lDelete removes exactly the element keys head..tail of the generation, whatever the size ---------- *)
+Theorem ldelete_range_then_tail v head tail (es : list (skey * bytes)) : NoDup (map fst es) -> head <= tail ->
+  ldel v tail (ldelete_range v head tail es) = ldrop_range v head tail es.
+Proof.
+  intros ND L. unfold ldel, ldelete_range, ldrop_range.
+  rewrite (adel_filter skey_eqb skey_eqb_eq) by (apply (nodup_kfilter (fun k : skey => negb (lin_range v head tail false k))); exact ND).
+  rewrite filter_and. apply filter_ext. intros [[v' s'] x]. unfold lin_range, skey_eqb. cbn [fst snd]. lia.
+Qed.
+Theorem ldelete_each_then_tail v head tail (es : list (skey * bytes)) : NoDup (map fst es) -> head <= tail ->
+  ldel v tail (ldelete_each v head tail es) = ldrop_range v head tail es.
+Proof.
+  intros ND L. unfold ldel, ldelete_each, ldrop_range.
+  rewrite (delete_each_filter skey_eqb skey_eqb_eq (lin_range v head tail true) es ND).
+  rewrite (adel_filter skey_eqb skey_eqb_eq) by (apply (nodup_kfilter (fun k : skey => negb (lin_range v head tail true k))); exact ND).
+  rewrite filter_and. apply filter_ext. intros [[v' s'] x]. unfold lin_range, skey_eqb. cbn [fst snd]. lia.
+Qed.
+Theorem lclear_elems_exact size v head tail (es : list (skey * bytes)) : NoDup (map fst es) -> head <= tail ->
+  lclear_elems size v head tail es = ldrop_range v head tail es.
+Proof.
+  intros ND L. unfold lclear_elems. destruct (range_delete_num <? size);
+    [apply ldelete_range_then_tail; assumption|apply ldelete_each_then_tail; assumption].
+Qed.
+
 Section RL.
   Variable compact : bool.
   Notation vok := (ver_ok compact).
@@ -264,6 +287,7 @@ Section RL.
       destruct ((llen <=? start2) || (stop1 <? start2)) eqn:Emp.
       + (* whole list deleted *)
         unfold ldelete. rewrite E. fold llen. destruct (llen =? 0); cbn [fst]; [exact Rm|].
+        rewrite (lclear_elems_exact llen (lm_ver m) (lm_head m) (lm_tail m) (l_elems l) (rl_nodup _ _ R) hle).
         constructor; cbn [l_meta l_elems].
         * destruct (lazy_clear compact ts (l_ver l)); [apply (rl_nodup _ _ R)|]. unfold ldrop_range.
           apply (nodup_kfilter (fun k : skey => negb ((fst k =? lm_ver m) && (lm_head m <=? snd k) && (snd k <=? lm_tail m)))), (rl_nodup _ _ R).
@@ -300,6 +324,7 @@ Section RL.
       unfold ldelete. destruct (l_meta l) as [m|] eqn:E; cbn [fst]; [|exact Rm].
       destruct (rl_meta _ _ Rm m E) as (hle & vk & pres & conf).
       destruct (l_size l =? 0); cbn [fst]; [exact Rm|].
+      rewrite (lclear_elems_exact (l_size l) (lm_ver m) (lm_head m) (lm_tail m) (l_elems l) (rl_nodup _ _ R) hle).
       constructor; cbn [l_meta l_elems].
       + destruct (lazy_clear compact ts (l_ver l)); [apply (rl_nodup _ _ R)|]. unfold ldrop_range.
         apply (nodup_kfilter (fun k : skey => negb ((fst k =? lm_ver m) && (lm_head m <=? snd k) && (snd k <=? lm_tail m)))), (rl_nodup _ _ R).
